@@ -612,14 +612,21 @@ template <class T> struct Maker<PhQ::ConstitutiveModel::CompressibleNewtonianFlu
             b[0] += w + 1
             b[1].append(t)
         tus = {}
+        sizes = self.cat.interesting_integers()
+        size_def = ("namespace vrt {\nconst long kInterestingSizes[] = {%s};\nconst int kNInterestingSizes = %d;\n}\n" % (
+            ", ".join(str(v) for v in sizes) or "0", len(sizes)))
         for i, (w, ts) in enumerate(bins):
             if ts:
                 body = "".join(ts)
+                if not tus:
+                    tail_ = tail + size_def
+                else:
+                    tail_ = tail
                 twins = ""
                 if inline_twins:
                     # C19 API sweep: the same tables are also registered (= executed before main) from C++17
                     # inline variables, which clang initialises earlier than ordinary namespace-scope objects
                     for m in re.finditer(r"static const vrt::Registrar reg_(\w+)\{(table_\w+), (\d+)\};", body):
                         twins += "inline const vrt::RegistrarInline reg_inline_%s{%s, %s};\n" % (m.group(1), m.group(2), m.group(3))
-                tus["c20_ops_%02d.cpp" % i] = head + body + tail + twins
+                tus["c20_ops_%02d.cpp" % i] = head + body + tail_ + twins
         return tus
